@@ -470,6 +470,9 @@ func generateMore(suite string, seed uint64, i int, r *rng, id string, g gp) *Ca
 		g.comps = false
 		edges, names := genGraph(r, g)
 		cfg := genCfg(r, cp{p1: []int{0, 1}, p2: []int{0, 1}, p4: []int{1, 2}, p5: []int{0, 1, 4}, sizes: 1, virt: 2, trace: true, mon: true}, names)
+		if r.chance(1, 8) { // the same drawing in a tiny or huge unit (exact: a power of two): widths around 1e-10, 1e-7 or 1e11
+			cfg = scaleCfg(cfg, []int{-40, -30, -30, 30}[r.intn(4)])
+		}
 		return lay(cfg, edges)
 	case "rename": // C08
 		g.names = 0
